@@ -98,13 +98,19 @@ class Typed:
         return _CACHE[k]
 
     def type_of(self, mod: Module | str, node: ast.AST) -> Optional[str]:
-        name = mod if isinstance(mod, str) else mod.name
+        name = getattr(node, "_tmod", None) or (mod if isinstance(mod, str) else mod.name)  # _tmod: function analysed in another module than it is written in
+        tp = getattr(node, "_tpos", None)  # code moved by the inliner keeps its original position for type look-ups
+        if tp is not None and tp[2] is not None:
+            return self.table.get((name,) + tuple(tp))
         if getattr(node, "end_lineno", None) is None:
             return None
         return self.table.get((name, node.lineno, node.col_offset, node.end_lineno, node.end_col_offset))
 
     def fullname_of(self, mod: Module | str, node: ast.AST) -> Optional[str]:
-        name = mod if isinstance(mod, str) else mod.name
+        name = getattr(node, "_tmod", None) or (mod if isinstance(mod, str) else mod.name)
+        tp = getattr(node, "_tpos", None)
+        if tp is not None and tp[2] is not None:
+            return self.member_full.get((name,) + tuple(tp))
         if getattr(node, "end_lineno", None) is None:
             return None
         return self.member_full.get((name, node.lineno, node.col_offset, node.end_lineno, node.end_col_offset))
